@@ -36,6 +36,15 @@ pub struct FileSpec {
     /// this name is a hard link of an earlier file of the list (`cp -l`, de-duplicated assets): one inode, two regular files
     #[serde(default)]
     pub hard_link_of: Option<usize>,
+    /// (wave 14) the file holds `content` this many times over (0 = once): files of 64 KiB and more without megabytes of
+    /// scenario text — large payloads take other paths through a sender than small ones
+    #[serde(default)]
+    pub repeat: u32,
+}
+impl FileSpec {
+    pub fn bytes(&self) -> Vec<u8> {
+        self.content.repeat(self.repeat.max(1) as usize)
+    }
 }
 #[derive(Clone, Debug, Serialize, Deserialize)]
 pub enum Mutation {
@@ -173,9 +182,15 @@ pub fn generate(_cfg: &RunCfg, _out: &mut Outcome) -> Scenario {
         match link_to {
             Some(j) => {
                 let content = files[j].content.clone();
-                files.push(FileSpec { path, content, hard_link_of: Some(j) })
+                let repeat = files[j].repeat;
+                files.push(FileSpec { path, content, hard_link_of: Some(j), repeat })
             }
-            None => files.push(FileSpec { path, content: gen_content(e), hard_link_of: None }),
+            None => {
+                let content = gen_content(e);
+                // one file in twelve is large: 64 KiB … 400 KiB
+                let repeat = if content.len() >= 16 && t::chance(1, 12) { ((65_536 + t::range(0, 200_000) as usize) / content.len() + 1) as u32 } else { 0 };
+                files.push(FileSpec { path, content, hard_link_of: None, repeat })
+            }
         }
     }
     let outside: Vec<String> = (0..t::draw(3)).map(|i| format!("outside{i}.txt")).collect();
@@ -323,7 +338,7 @@ fn model_one(sc: &Scenario) -> Result<BTreeMap<String, (String, Vec<u8>)>, Strin
                 return Err(format!("not a valid route segment in {r:?}"));
             }
             let route = if r.is_empty() { if m.is_empty() { "/".to_string() } else { m.clone() } } else { format!("{m}/{}", r.join("/")) };
-            if table.insert(route.clone(), (mime.to_string(), f.content.clone())).is_some() {
+            if table.insert(route.clone(), (mime.to_string(), f.bytes())).is_some() {
                 return Err(format!("two files share the route {route}"));
             }
         }
@@ -365,7 +380,7 @@ fn execute(sc: &Scenario, out: &mut Outcome) {
                 out.probe("c19.hard_linked_file");
                 std::fs::hard_link(orig.path.iter().fold(root.clone(), |a, s| a.join(s)), &p)
             }
-            None => std::fs::write(&p, &f.content),
+            None => std::fs::write(&p, f.bytes()),
         };
         if made.is_err() {
             out.verdict = Verdict::Discard; // e.g. a name is both file and directory
@@ -383,7 +398,7 @@ fn execute(sc: &Scenario, out: &mut Outcome) {
         for f in &sc.files {
             let p = f.path.iter().fold(root_b.clone(), |a, s| a.join(s));
             let _ = std::fs::create_dir_all(p.parent().unwrap());
-            let _ = std::fs::write(&p, alter(&f.content));
+            let _ = std::fs::write(&p, alter(&f.bytes()));
         }
         if s2.same_mtime {
             out.probe("c19.same_path_size_mtime_other_bytes");
@@ -507,6 +522,11 @@ fn execute(sc: &Scenario, out: &mut Outcome) {
     let reqs = sc.reqs.clone();
     let files = sc.files.clone();
     let root2 = root.clone();
+    let large = sc.files.iter().any(|f| f.repeat > 1);
+    if large {
+        out.probe("c19.file_of_64_kib_or_more");
+    }
+    let window_for_large = 700 + sc.files.iter().map(|f| f.bytes().len()).sum::<usize>() % 90_000;
     simcore::spawn_task("client", "client", async move {
         let mut c: Option<Client> = None;
         for r in &reqs {
@@ -544,7 +564,9 @@ fn execute(sc: &Scenario, out: &mut Outcome) {
                 }
             }
             if c.is_none() {
-                match Client::connect(rt::ADDR, ConnCfg::default()).await {
+                // with a large file around, the transport takes what it likes of each write and the client's window is small
+                let cfg = if large { ConnCfg { short_writes: true, window: window_for_large, ..ConnCfg::default() } } else { ConnCfg::default() };
+                match Client::connect(rt::ADDR, cfg).await {
                     Ok(x) => c = Some(x),
                     Err(_) => return,
                 }
